@@ -3,6 +3,8 @@ import Gql.Proofs.OverlapLocal
 import Gql.Proofs.OverlapHyps
 import Gql.Proofs.OverlapNatural
 import Gql.Proofs.OverlapIff
+import Gql.Proofs.OverlapDfsBound
+import Gql.Proofs.OverlapTypename
 /-!
 # C14 — Field-merge validation accepts exactly what the specification accepts
 
@@ -17,6 +19,10 @@ Proved here: the four structural lemmas, the *local* part of the equivalence
 every schema, every document: named fragments, cyclic spreads, one fragment reached under many
 parents, both memo tables with their exclusivity flag, the per-selection-set cache.  The
 three-way differential run of `checks/c14.py` ties the model to the Python code.
+
+The executable oracle of that run, `Spec.specConflictB`, is proved to decide `Spec.SpecConflict`
+(`specConflictB_total`, `specConflictB_iff`), hence `overlap_iff_oracle`: model of the rule and
+oracle agree on every schema and document.
 -/
 namespace Gql.Props.C14
 open Gql.Exec Gql.Exec.Overlap
@@ -269,6 +275,187 @@ example : cyclicDoc.IdsNodup ∧ cyclicDoc.argsWF = true ∧ cyclicDoc.NoTypenam
   · trivial
   · trivial
 
+/-! ### the executable oracle decides the specification -/
+
+/-- C14-f (termination of the oracle).  `Spec.specConflictB` — the work-list depth-first search
+over the specification's pairs that `checks/c14.py` runs through the driver as the oracle —
+always answers: its fuel `Spec.specFuel` is never exhausted, for every schema and every document,
+cyclic fragment spreads included.  (Every state is expanded at most once, there are at most
+`2·F²` state keys for `F` field nodes, and a state has at most `(3F)²` successors because an
+expanded merged set lists every fragment at most once.)  No hypothesis. -/
+theorem specConflictB_total (s : Schema) (d : Doc) : (Spec.specConflictB s d).isSome = true :=
+  specConflictB_isSome s d
+
+/-- C14-f (soundness of the oracle).  Whenever the oracle answers "conflict", the specification
+finds an unmergeable pair.  No hypothesis. -/
+theorem specConflictB_sound (s : Schema) (d : Doc) (h : Spec.specConflictB s d = some true) :
+    Spec.SpecConflict s d :=
+  Gql.Exec.specConflictB_sound h
+
+/-- C14-f (**the oracle decides the specification**).  For every schema and every document whose
+field nodes carry pairwise different identities, `specConflictB` answers `some true` iff
+`SpecConflict` holds (and `some false` otherwise, by `specConflictB_total`).
+
+Hypothesis `FieldIdsNodup` (decidable): the search remembers expanded states by
+`(id of field a, id of field b, full)`; `FieldNode.id` stands for the Python object identity of a
+field node, and the serialiser of the check (`tools/c14_gen.py`, `Ser.fresh`) numbers the nodes of
+the parsed document with one running counter, so the hypothesis holds of every case the driver
+receives.  Without it the statement is false (`dupIdDoc` below): two different pairs with one key. -/
+theorem specConflictB_iff (s : Schema) (d : Doc) (hF : d.FieldIdsNodup) :
+    Spec.specConflictB s d = some true ↔ Spec.SpecConflict s d :=
+  Gql.Exec.specConflictB_iff hF
+
+/-- C14-f, the other answer: `some false` iff the specification accepts the document. -/
+theorem specConflictB_false_iff (s : Schema) (d : Doc) (hF : d.FieldIdsNodup) :
+    Spec.specConflictB s d = some false ↔ Spec.specMergeable s d := by
+  have ht := specConflictB_total s d
+  have hi := specConflictB_iff s d hF
+  unfold Spec.specMergeable
+  rw [← hi]
+  cases h : Spec.specConflictB s d with
+  | none => rw [h] at ht; cases ht
+  | some b => cases b <;> simp
+
+example : cyclicDoc.FieldIdsNodup ∧ nofragDoc.FieldIdsNodup := by decide
+
+/-- C14 (**model of the rule = executable oracle**).  Under the hypotheses of `overlap_iff` and
+pairwise different field identities, the rule returns and reports at least one conflict iff the
+oracle `specConflictB` — the function the correspondence check evaluates on every generated
+document — answers `some true`. -/
+theorem overlap_iff_oracle (s : Schema) (d : Doc) (hI : d.IdsNodup) (hA : d.argsWF = true)
+    (hT : d.NoTypename) (hR : RootsObject s d) (hL : LeafNoSub s d) (hK : KeysInj d)
+    (hF : d.FieldIdsNodup) :
+    ∃ cs, implConflicts s d = some cs ∧ (cs ≠ [] ↔ Spec.specConflictB s d = some true) := by
+  obtain ⟨cs, e, i⟩ := overlap_iff s d hI hA hT hR hL hK
+  refine ⟨cs, e, i.trans ?_⟩
+  rw [specConflictB_iff s d hF]
+  simp [Spec.specMergeable]
+
+/-- `{ a: x  a: x  b: x  b: y }` with every field node given the identity 0: all other hypotheses
+of `overlap_iff` hold, the rule and the specification reject (`b: x` / `b: y`), the search answers
+`some false` because the pair `(b: x, b: y)` has the key of the harmless pair `(a: x, a: x)`. -/
+def dupIdSchema : Schema := [⟨"Query", .object, [("x", .leaf "Int"), ("y", .leaf "Int")]⟩]
+
+def dupIdDoc : Doc :=
+  [.op (some "Query") ⟨1, [.field 0 (some "a") "x" [] none false 0 [],
+    .field 0 (some "a") "x" [] none false 0 [], .field 0 (some "b") "x" [] none false 0 [],
+    .field 0 (some "b") "y" [] none false 0 []]⟩]
+
+example : ¬ dupIdDoc.FieldIdsNodup ∧ Spec.specConflictB dupIdSchema dupIdDoc = some false ∧
+    (implConflicts dupIdSchema dupIdDoc).map (·.length) = some 1 ∧
+    Spec.SpecConflict dupIdSchema dupIdDoc := by
+  refine ⟨by decide, by decide +kernel, by decide +kernel, ?_⟩
+  have h : (Spec.initStates dupIdSchema dupIdDoc).any (Spec.direct dupIdSchema) = true := by
+    decide +kernel
+  obtain ⟨st, hst, hd⟩ := List.any_eq_true.1 h
+  exact ⟨st, hst, st, Spec.Reach.refl _, hd⟩
+
+/-- `dupIdDoc` satisfies every hypothesis of `overlap_iff`: `FieldIdsNodup` cannot be dropped from
+`specConflictB_iff` / `overlap_iff_oracle`. -/
+example : dupIdDoc.IdsNodup ∧ dupIdDoc.argsWF = true ∧ dupIdDoc.NoTypename ∧
+    RootsObject dupIdSchema dupIdDoc ∧ ScalarLeafs dupIdSchema dupIdDoc ∧ KeysInj dupIdDoc := by
+  refine ⟨by unfold Doc.IdsNodup; decide, by decide, by unfold Doc.NoTypename; decide, ?_,
+    by unfold ScalarLeafs; decide, by unfold KeysInj; decide⟩
+  intro df hdf
+  simp only [dupIdDoc, List.mem_singleton] at hdf
+  subst hdf
+  exact Or.inr (by decide)
+
+/-! ### what the rule does for `__typename` (known finding `missed-conflict-typename-meta-field`) -/
+
+/-- C14-g (**partial**: the local step for the meta field).  For two field entries as the rule
+collects them (`field_def = parent_type.fields.get(name)`), at least one of them a `__typename`
+selection, at most one with a sub-selection, in a schema that defines no field called
+`__typename`: `find_conflict` reports a conflict **iff** the pair violates `directNoTypes` —
+identical `@stream`, and, unless the parents are known to be mutually exclusive, identical names
+and arguments.  The return types are never compared (`__typename` has no entry in any field
+table, so its definition is `None`), whereas the specification also requires SameResponseShape
+with `String!`:
+
+  `Spec.direct = (return types conflict) ∨ directNoTypes`   (`direct_eq_types_or`).
+
+So for pairs with a `__typename` field the rule reports exactly the specification's violations
+other than the type requirement, and misses exactly the pairs whose only violation is
+"`String!` against a different type" — the known finding.
+
+Missing for the exact document-level statement (`overlap_iff_typename_full` below): the
+induction of `overlap_iff` with entries whose definition is `None` instead of `String!`
+(`known_facts'` in `Proofs/OverlapSound2.lean` and its two siblings use `NoTypename` exactly to
+identify `field_def` with the specification's type). -/
+theorem overlap_typename_local (env : Env) (hle : LinOrd env.le) (n : Nat) (parentExcl : Bool)
+    (rn : String) (e1 e2 : FieldEntry) (σ : St)
+    (h1 : e1.node.argsOK) (h2 : e2.node.argsOK) (hm : env.s.NoMetaField)
+    (hn : e1.node.name = "__typename" ∨ e2.node.name = "__typename")
+    (hd1 : e1.defTy = env.s.fieldDef e1.parent e1.node.name)
+    (hd2 : e2.defTy = env.s.fieldDef e2.parent e2.node.name)
+    (hsub : (e1.node.hasSub && e2.node.hasSub) = false) :
+    ∃ cs, findConflict env (n + 1) parentExcl rn e1 e2 σ = some (σ, cs) ∧
+      (cs ≠ [] ↔ directNoTypes env.s ⟨e1.inst, e2.inst, !parentExcl⟩ = true) ∧
+      (Spec.direct env.s ⟨e1.inst, e2.inst, !parentExcl⟩ = true ↔
+        cs ≠ [] ∨ Spec.typesConflict (Spec.fieldType env.s e1.parent e1.node.name)
+          (Spec.fieldType env.s e2.parent e2.node.name) = true) := by
+  obtain ⟨cs, e, i⟩ :=
+    findConflict_local_meta env hle n parentExcl rn e1 e2 σ h1 h2 hm hn hd1 hd2 hsub
+  refine ⟨cs, e, i, ?_⟩
+  rw [direct_eq_types_or, i, Bool.or_eq_true]
+  simp only [Spec.typesOf, Overlap.FieldEntry.inst]
+  exact Or.comm
+
+/-- The open target for `__typename` (**not proved**; exact characterisation of the rule with
+`__typename` selections allowed).  The rule reports a conflict iff the specification finds an
+unmergeable pair *when `__typename` is regarded as a field without return type* — formally, on
+the document in which every `__typename` selection is renamed to a field `z` that neither schema
+nor document uses (`Doc.hideMeta`, response names kept).  Equivalently, by `overlap_iff` applied
+to the renamed document (which has no `__typename`): `implConflicts s d` and
+`implConflicts s (d.hideMeta z)` are empty together.  `overlap_typename_local` is its local
+step; the examples below check it on the known-finding document and on two documents where a
+`__typename` pair is rejected for its names. -/
+def overlap_iff_typename_full : Prop :=
+  ∀ (s : Schema) (d : Doc) (z : String), d.IdsNodup → d.argsWF = true → s.NoMetaField →
+    FreshName s d z → RootsObject s d → LeafNoSub s (d.hideMeta z) → KeysInj d →
+    ∃ cs, implConflicts s d = some cs ∧ (cs ≠ [] ↔ Spec.SpecConflict s (d.hideMeta z))
+
+/-- C14-g'' (reduction of the open target to one evaluation per document).  If the rule's model
+gives equally empty results on `d` and on `d.hideMeta z`, and `d.hideMeta z` satisfies the
+hypotheses of `overlap_iff` (it has no `__typename` as soon as `z ≠ "__typename"`), then on `d` —
+`__typename` selections allowed — the rule reports a conflict iff the specification with
+`__typename` hidden finds an unmergeable pair, iff the oracle run on `d.hideMeta z` says so.
+The first hypothesis is decidable for a concrete document (`decide`, example below); the check
+measures the resulting equivalence on every generated document that selects `__typename`
+(driver output `T`, statistics `typename_blind_spec_agrees`). -/
+theorem overlap_iff_typename_of_invariance (s : Schema) (d : Doc) (z : String)
+    (hinv : (implConflicts s d).map (·.isEmpty) = (implConflicts s (d.hideMeta z)).map (·.isEmpty))
+    (hI : (d.hideMeta z).IdsNodup) (hA : (d.hideMeta z).argsWF = true)
+    (hT : (d.hideMeta z).NoTypename) (hR : RootsObject s (d.hideMeta z))
+    (hL : LeafNoSub s (d.hideMeta z)) (hK : KeysInj (d.hideMeta z))
+    (hF : (d.hideMeta z).FieldIdsNodup) :
+    ∃ cs, implConflicts s d = some cs ∧
+      (cs ≠ [] ↔ Spec.SpecConflict s (d.hideMeta z)) ∧
+      (cs ≠ [] ↔ Spec.specConflictB s (d.hideMeta z) = some true) := by
+  obtain ⟨cs', e', i'⟩ := overlap_iff s (d.hideMeta z) hI hA hT hR hL hK
+  rw [e'] at hinv
+  cases e : implConflicts s d with
+  | none => rw [e] at hinv; cases hinv
+  | some cs =>
+    rw [e] at hinv
+    have hemp : cs.isEmpty = cs'.isEmpty := by simpa using hinv
+    have hne : cs ≠ [] ↔ cs' ≠ [] := by
+      cases cs <;> cases cs' <;> simp_all
+    have h1 : cs ≠ [] ↔ Spec.SpecConflict s (d.hideMeta z) := by
+      rw [hne, i']; simp [Spec.specMergeable]
+    exact ⟨cs, rfl, h1, by rw [specConflictB_iff s _ hF]; exact h1⟩
+
+/-- C14-g'. The same local step for arbitrary looked-up definitions: the report is
+"the looked-up return types conflict, or `directNoTypes`". -/
+theorem overlap_local_defs (env : Env) (hle : LinOrd env.le) (n : Nat) (parentExcl : Bool)
+    (rn : String) (e1 e2 : FieldEntry) (σ : St)
+    (h1 : e1.node.argsOK) (h2 : e2.node.argsOK)
+    (hsub : (e1.node.hasSub && e2.node.hasSub) = false) :
+    ∃ cs, findConflict env (n + 1) parentExcl rn e1 e2 σ = some (σ, cs) ∧
+      (cs ≠ [] ↔ (Spec.typesConflict e1.defTy e2.defTy ||
+        directNoTypes env.s ⟨e1.inst, e2.inst, !parentExcl⟩) = true) :=
+  findConflict_local_defs env hle n parentExcl rn e1 e2 σ h1 h2 hsub
+
 /-- Known finding, machine-checked on the model: `{ t { ... on T1 { f: __typename } ... on T2 { f: i } } }`
 (`i: Int`) — the rule reports nothing, the specification rejects (`String!` vs `Int`). -/
 def typenameSchema : Schema :=
@@ -282,5 +469,57 @@ def typenameDoc : Doc :=
 
 example : implConflicts typenameSchema typenameDoc = some [] ∧
     Spec.specConflictB typenameSchema typenameDoc = some true := by decide +kernel
+
+/-- the two entries of `typenameDoc` (`f: __typename` on `T1`, `f: i` on `T2`): exclusive
+parents, no `@stream` — `directNoTypes` holds nothing against the pair, the specification's
+`direct` does (`String!` / `Int`), the rule reports nothing. -/
+example :
+    let e1 : FieldEntry := ⟨some "T1", ⟨5, some "f", "__typename", [], none, false, 0, []⟩,
+      Schema.fieldDef typenameSchema (some "T1") "__typename"⟩
+    let e2 : FieldEntry := ⟨some "T2", ⟨7, some "f", "i", [], none, false, 0, []⟩,
+      Schema.fieldDef typenameSchema (some "T2") "i"⟩
+    e1.defTy = none ∧ e2.defTy = some (.leaf "Int") ∧
+      directNoTypes typenameSchema ⟨e1.inst, e2.inst, true⟩ = false ∧
+      Spec.direct typenameSchema ⟨e1.inst, e2.inst, true⟩ = true ∧
+      (findConflict ⟨typenameSchema, typenameDoc, naturalLe⟩ 1 false "f" e1 e2 {}).map (·.2)
+        = some [] := by decide +kernel
+
+example : Schema.NoMetaField typenameSchema := by
+  intro t ht f hf
+  simp only [typenameSchema, List.mem_cons, List.not_mem_nil, or_false] at ht
+  rcases ht with rfl | rfl | rfl | rfl <;> simp_all
+
+/-- `{ t { ... on T1 { f: __typename } ... on T2 { f: i } } }`: rule and typename-blind
+specification accept; `{ t { f: __typename f: i } }` and
+`{ t { ... on T1 { f: __typename } f: i } }` (parents overlap): both reject, for the names. -/
+def typenameDoc2 : Doc :=
+  [.op (some "Query") ⟨1, [.field 2 none "t" [] none true 3
+    [.field 5 (some "f") "__typename" [] none false 0 [],
+     .field 7 (some "f") "i" [] none false 0 []]]⟩]
+
+def typenameDoc3 : Doc :=
+  [.op (some "Query") ⟨1, [.field 2 none "t" [] none true 3
+    [.inline (some "T1") 4 [.field 5 (some "f") "__typename" [] none false 0 []],
+     .field 7 (some "f") "i" [] none false 0 []]]⟩]
+
+example :
+    implConflicts typenameSchema typenameDoc = some [] ∧
+    Spec.specConflictB typenameSchema (typenameDoc.hideMeta "z") = some false ∧
+    (implConflicts typenameSchema typenameDoc2).map (·.length) = some 1 ∧
+    Spec.specConflictB typenameSchema (typenameDoc2.hideMeta "z") = some true ∧
+    (implConflicts typenameSchema typenameDoc3).map (·.length) = some 1 ∧
+    Spec.specConflictB typenameSchema (typenameDoc3.hideMeta "z") = some true := by
+  decide +kernel
+
+/-- the invariance hypothesis of `overlap_iff_typename_of_invariance`, evaluated on the three
+`__typename` documents -/
+example :
+    (implConflicts typenameSchema typenameDoc).map (·.isEmpty) =
+      (implConflicts typenameSchema (typenameDoc.hideMeta "?")).map (·.isEmpty) ∧
+    (implConflicts typenameSchema typenameDoc2).map (·.isEmpty) =
+      (implConflicts typenameSchema (typenameDoc2.hideMeta "?")).map (·.isEmpty) ∧
+    (implConflicts typenameSchema typenameDoc3).map (·.isEmpty) =
+      (implConflicts typenameSchema (typenameDoc3.hideMeta "?")).map (·.isEmpty) := by
+  decide +kernel
 
 end Gql.Props.C14
